@@ -349,7 +349,38 @@ func (f *Frame) contractCall(st *State, r *Term, target *ssa.Function, tmap TMap
 				f.frameCheckCall(st, r, calleeShort, nil, false, pos)
 			}
 			if eff.top {
+				// `keeps P`: the fields of the structs whose name starts with P survive the havoc
+				kept := map[string]*Term{}
+				for _, pfx := range ct.Keeps {
+					for _, pk := range ctx.eng.pkgs {
+						if pk.Types == nil || pkgID(pk.Types)+"." != pfx {
+							continue
+						}
+						sc := pk.Types.Scope()
+						for _, name := range sc.Names() {
+							tn, ok := sc.Lookup(name).(*types.TypeName)
+							if !ok || tn.IsAlias() {
+								continue
+							}
+							nt, ok := tn.Type().(*types.Named)
+							if !ok || nt.TypeParams().Len() > 0 {
+								continue
+							}
+							if _, isStruct := nt.Underlying().(*types.Struct); !isStruct {
+								continue
+							}
+							si := f.structInfo(nt)
+							for i := range si.Fields {
+								n := compF(si, i)
+								kept[n] = ctx.comp(st, n, ArrS(SInt, si.Fields[i].Sort))
+							}
+						}
+					}
+				}
 				f.havocTop(st)
+				for n, t := range kept {
+					st.heap[n] = t
+				}
 			} else {
 				f.havocComps(st, eff.comps)
 			}
